@@ -61,6 +61,32 @@ def kernel_job(which, N):
                        {'level': 'kernel', 'which': which, 'N': N, 'derive_D': which.startswith('X-') or which == 'delta'})
 
 
+def renew_job(N, ends):
+    """the real RenewSearchData on a symbolic two-interval list (EXACT): lengths, M, characteristics, links"""
+    st = agp.setup()
+    mods = st['mods']
+    agp.use_queue_stub(True)
+
+    def h(ex):
+        r = ex.real('r')
+        ex.assume(r.t > 1)
+        s, prob = agp.new_solver(ex, N, lambda ys, i: 0.0, r, 0.01, 1000, stub_evolvent=agp.EvolventStub(ex, N, *agp.BOXES[N]) if N >= 2 else None)
+        v = {n: ex.real(n) for n in ('xl', 'xr', 'xn', 'zl', 'zr', 'zn', 'M', 'Z')}
+        ex.assume(z3.And(v['xl'].t >= 0, v['xl'].t < v['xn'].t, v['xn'].t < v['xr'].t, v['xr'].t <= 1, v['M'].t >= 1))
+        if ends == 'unevaluated':
+            v['zl'] = v['zr'] = None
+            ex.assume(v['Z'].t <= v['zn'].t)
+        else:
+            ex.assume(z3.And(v['Z'].t <= v['zn'].t, v['Z'].t <= v['zl'].t, v['Z'].t <= v['zr'].t))
+        cl = an.kernel_clauses(mods, s, 'renew', N, v)
+        ex.tag('kernel-renew')
+        agp.prove_all(ex, cl, detail={'which': 'renew'})
+    ex = agp.exact_explorer('K1 renew N=%d %s' % (N, ends), timeout_ms=60000)
+    ex.explore(h, sample_every=3)
+    return agp.summary(ex, 'kernel RenewSearchData N=%d, ends %s' % (N, ends), {'N': N},
+                       {'level': 'kernel', 'which': 'renew', 'N': N, 'ends_unevaluated': ends == 'unevaluated'})
+
+
 def first_job(N, m):
     st = agp.setup()
     mods = st['mods']
@@ -90,6 +116,23 @@ def first_job(N, m):
                                                              'nsym': 1, 'overrides': ['before', 'iter', 'stop']}})
 
 
+def queue_config_job():
+    """The decision rule needs EVERY interval to stay queued: the Solver must build an unbounded characteristics queue."""
+    st = agp.setup()
+    agp.use_queue_stub(False)
+
+    def h(ex):
+        obj = agp.Objective(ex)
+        s, prob = agp.new_solver(ex, 2, obj, 2.5, 0.01, 1000)
+        ml = s.searchData._RGlobalQueue.GetMaxLen()
+        ex.prove(ml is None, 'C02 QUEUE-UNBOUNDED: the solver\'s characteristics queue keeps every interval (no eviction)', {'maxlen': ml})
+        ex.tag('queue-config')
+    ex = agp.exact_explorer('QUEUE CONFIG')
+    ex.explore(h)
+    s = agp.summary(ex, 'the characteristics queue built by Solver is unbounded', None, {'level': 'queue-config', 'N': 2})
+    return s
+
+
 # ---------------------------------------------------------------------------------------------- L3
 def prefix_job(N, r, seed, kpre, S, want=WANT, real_queue=False):
     cfg = {'N': N, 'r': r, 'seed': seed, 'kpre': kpre, 'nsym': S + 2, 'script': [('iter', kpre + S + 1)], 'overrides': ['before', 'iter', 'stop'],
@@ -113,6 +156,10 @@ def main():
             jobs.append((kernel_job, (which, N)))
     for (N, m) in ((1, 3), (2, 2), (3, 2)):
         jobs.append((first_job, (N, m)))
+    jobs.append((queue_config_job, ()))
+    for N in (1, 2, 3):
+        for ends in ('unevaluated', 'evaluated'):
+            jobs.append((renew_job, (N, ends)))
     # L2
     plan = [(1, 1), (1, 2), (2, 2)] if quick else [(1, 1), (1, 2), (2, 2), (3, 2), (1, 3), (2, 3)]
     jobs += agp.step_jobs(WANT, plan)
@@ -136,10 +183,27 @@ def main():
                     '(N enters the method only through the Hoelder length and the N-th power, covered by K1 for N <= 5 and by the step '
                     'checks for N <= 3); a bounded characteristics queue (Solver never sets maxlen)')
     res = run.parallel(jobs)
+    # a bounded queue is a structural finding; it becomes a violation only with an end-to-end witness: a long native run, sized from the
+    # bound, in which some trial subdivides an interval that does not have the maximal characteristic
+    for r_, c in list(run.candidates()):
+        if c['detail'].get('level') == 'queue-config':
+            ml = c['detail'].get('maxlen')
+            if isinstance(ml, int) and ml <= 1200:
+                a = {'level': 'longrun', 'want': ['C02'], 'N': 2, 'model': {}, 'r': 3.5, 'iters': int(3.6 * ml) + 50, 'seed': 1}
+                rp = run.write_replay('longrun', an.REPLAY_TEMPLATE % {'verif': report.VERIF, 'args': a})
+                ok, out = run.run_replay(rp, timeout=1500)
+                if ok:
+                    run.confirmed('C02:queue-bounded', 'the characteristics queue is bounded (maxlen=%s); in a run of %d trials: %s' % (ml, a['iters'], (out or '').strip()[-300:]), rp)
+                else:
+                    run.unconfirmed(c['label'], 'no violating trial in a native run of %d iterations: %s' % (a['iters'], (out or '')[-200:]))
+            else:
+                run.unconfirmed(c['label'], 'maxlen=%r: a native witness run would be too long' % (ml,))
+    for r_ in run.jobs:
+        r_['cex'] = [x for x in r_.get('cex', []) if x['detail'].get('level') != 'queue-config']
     agp.confirm(run, WANT)
     run.finish('every trial subdivides an interval of maximal characteristic at the point given by the decision rule, strictly inside it; '
                'first trial at the image of 0.5; no coordinate twice',
-               vacuity=['kernel-R-interior', 'kernel-X-interior', 'first-iteration', 'recalc-pending', 'recalc-not-pending',
+               vacuity=['kernel-R-interior', 'kernel-X-interior', 'first-iteration', 'queue-config', 'recalc-pending', 'recalc-not-pending',
                         'interior-interval', 'left-boundary-interval', 'right-boundary-interval', 'new-optimum', 'optimum-kept',
                         'scenario', 'trial-location-depends-on-symbolic-values'])
 
